@@ -145,7 +145,9 @@ def get_melody_between(voice, start, end, modulo=False):
 
         if add_continuation:
             from ..note import Continuation
-            new_voice.append(Continuation(new_note.duration))
+            continuation = Continuation(new_note.duration)
+            continuation.duration = new_note.duration  # the exact remainder (the constructor rounds it to 1/1000)
+            new_voice.append(continuation)
         else:
             new_voice.append(new_note)
 
